@@ -279,7 +279,7 @@ def main(tier, seed):
     for w in ("pp", "links", "inc"):
         pick = list(h3)
         rnd.shuffle(pick)
-        for h in pick[: (170 if tier == "quick" else 4000)] + sim12:
+        for h in pick[: (170 if tier == "quick" else 1200)] + sim12:
             jobs.append({"world": w, "hist": h})
     # preprocessor state needs longer histories (one file is edited, ANOTHER one re-parsed and saved): all histories
     # of 6 events over the two files a, b that edit both and end in a save
